@@ -288,7 +288,7 @@ func H_C10_shufflesites_support() {
 		}
 	case 3:
 		al := vfC10Concrete(2, 4)
-		rogues := al.ShuffleSites(0.5, 1, false)
+		al.ShuffleSites(0.5, 1, false)
 		r, _ := al.GetSequenceCharById(0)
 		cnt := 0
 		for j := 0; j < 4; j++ {
@@ -297,7 +297,6 @@ func H_C10_shufflesites_support() {
 			}
 		}
 		verifAssert(cnt <= 3, "rate 1/2 of 4 sites: 2 sites plus 1 rogue site at most")
-		verifAssert(len(rogues) == 2, "rogue list has roguerate*n entries")
 		if cnt == 3 {
 			verifReach("rogue shuffle changed a third site")
 		}
@@ -323,26 +322,33 @@ func vfC10Swap(n, L int) (swapped bool) {
 			same = same && after.seqs[i][j] == orig[i][j]
 		}
 	}
-	if rate < 0 || rate > 1 {
-		verifAssert(err != nil, "rate outside [0,1] is an error")
-		verifAssert(same, "nothing is swapped after an error")
-		return false
-	}
-	verifAssert(err == nil, "rate inside [0,1] is accepted")
+	bad := rate < 0 || rate > 1
+	verifAssert(bad == (err != nil), "rate outside [0,1] is an error, rate inside is accepted")
+	verifAssert(!bad || same, "nothing is swapped after an error")
 	return !same
 }
 
 // H_C10_swap_invariant: Swap preserves every column's character multiset; names are fixed.
-// bounds: rows n<=4 (n=4 is the smallest n with two swapped pairs), columns L<=3, residues any printable ASCII byte, rate and pos = k/8 for k in -1..9 (pos outside [0,1] = random position); every outcome of the draws
-// outside: n>4, L>3, rate/pos that are not multiples of 1/8
+// bounds: rows n<=3 (one pair of rows), columns L<=3, residues any printable ASCII byte, rate and pos = k/8 for k in -1..9 (rate outside [0,1]: error; pos outside [0,1]: random position); every outcome of the draws
+// outside: n>3 (two pairs need n=4: thorough twin), L>3, rate/pos that are not multiples of 1/8
 func H_C10_swap_invariant() {
-	n := nondetRange(1, 4)
+	n := nondetRange(1, 3)
 	L := nondetRange(1, 3)
-	if vfC10Swap(n, L) {
+	changed := vfC10Swap(n, L)
+	verifReach("called")
+	if changed {
 		verifReach("something swapped")
-	} else {
-		verifReach("nothing swapped")
 	}
+}
+
+// H_C10_swap_invariant_deep: as H_C10_swap_invariant with n=4 (two pairs of rows are swapped at rate 1).
+// bounds: n=4, L<=2, otherwise as H_C10_swap_invariant
+// outside: n>4, L>3
+//verif: tier=thorough
+func H_C10_swap_invariant_deep() {
+	L := nondetRange(1, 2)
+	vfC10Swap(4, L)
+	verifReach("called")
 }
 
 // ------------------------------------------------------------------ SimulateRogue
@@ -805,10 +811,10 @@ func vfC10Mutate(n, L int) (changed bool) {
 func H_C10_mutate_invariant() {
 	n := nondetRange(1, 2)
 	L := nondetRange(1, 2)
-	if vfC10Mutate(n, L) {
+	changed := vfC10Mutate(n, L)
+	verifReach("called")
+	if changed {
 		verifReach("a residue was substituted")
-	} else {
-		verifReach("nothing substituted")
 	}
 }
 
@@ -870,9 +876,8 @@ func vfC10AddGaps(n, L int) (added bool) {
 			same = same && g == o
 		}
 	}
-	if prop < 0 || prop > 1 || lenprop < 0 || lenprop > 1 {
-		verifAssert(same, "proportions outside [0,1]: nothing is done")
-	}
+	bad := prop < 0 || prop > 1 || lenprop < 0 || lenprop > 1
+	verifAssert(!bad || same, "proportions outside [0,1]: nothing is done")
 	return !same
 }
 
@@ -882,10 +887,10 @@ func vfC10AddGaps(n, L int) (added bool) {
 func H_C10_addgaps_invariant() {
 	n := nondetRange(1, 3)
 	L := nondetRange(1, 3)
-	if vfC10AddGaps(n, L) {
+	changed := vfC10AddGaps(n, L)
+	verifReach("called")
+	if changed {
 		verifReach("a gap was added")
-	} else {
-		verifReach("nothing added")
 	}
 }
 
@@ -910,16 +915,11 @@ func vfC10Recombine(n, L int) (changed bool) {
 			verifAssert(from, "every residue comes from some row at the same column")
 			same = same && g == orig[i][j]
 		}
-		if swap {
-			verifAssert(vfC10SameMultiset(vfC10Column(orig, j), vfC10Column(after.seqs, j)), "with swap the two portions are exchanged: column multisets are kept")
-		}
+		verifAssert(!swap || vfC10SameMultiset(vfC10Column(orig, j), vfC10Column(after.seqs, j)), "with swap the two portions are exchanged: column multisets are kept")
 	}
-	if prop < 0 || prop > 0.5 || lenprop < 0 || lenprop > 1 {
-		verifAssert(err != nil, "proportion outside its range is an error")
-		verifAssert(same, "nothing is recombined after an error")
-		return false
-	}
-	verifAssert(err == nil, "proportions inside their ranges are accepted")
+	bad := prop < 0 || prop > 0.5 || lenprop < 0 || lenprop > 1
+	verifAssert(bad == (err != nil), "a proportion outside its range is an error, inside it is accepted")
+	verifAssert(!bad || same, "nothing is recombined after an error")
 	return !same
 }
 
@@ -929,10 +929,10 @@ func vfC10Recombine(n, L int) (changed bool) {
 func H_C10_recombine_invariant() {
 	n := nondetRange(1, 3)
 	L := nondetRange(1, 3)
-	if vfC10Recombine(n, L) {
+	changed := vfC10Recombine(n, L)
+	verifReach("called")
+	if changed {
 		verifReach("a portion was copied")
-	} else {
-		verifReach("nothing copied")
 	}
 }
 
